@@ -138,7 +138,7 @@ LAYOUTS = {
         "top/__init__.py": [],
         "top/a.py": [("import", "top.p.q.r.s")],
         "top/p/__init__.py": [],
-        "top/p/x.py": [("import", "top.a"), ("rel", 1, "q", ("y",))],
+        "top/p/x.py": [("import", "top.a"), ("rel", 1, "q", ("y",)), ("rel", 1, "q.r", ("s",)), ("rel", 1, "q.r.t", ("name",))],
         "top/p/q/__init__.py": [],
         "top/p/q/y.py": [("rel", 2, "", ("x",))],
         "top/p/q/r/__init__.py": [],
@@ -148,7 +148,8 @@ LAYOUTS = {
     },
     "wide": {
         "top/a/__init__.py": [],
-        "top/a/m.py": [("import", "top.b.m"), ("import", "top.b.n.o")],
+        "top/a/m.py": [("import", "top.b.m"), ("import", "top.b.n.o"), ("rel", 2, "b.n", ("o",)), ("rel", 2, "b.n.o", ("name",))],
+        "top/a/k/__init__.py": [("rel", 3, "b.n.o", ("name",)), ("rel", 2, "m", ("name",))],
         "top/b/__init__.py": [],
         "top/b/m.py": [("import", "top.a.m")],
         "top/b/n/o.py": [("import", "top.b.m"), ("import", "top.c")],
